@@ -164,7 +164,13 @@ impl<'a, Version: VersionTrait, Purpose: PurposeTrait> Paseto<'a, Version, Purpo
                     return Err(PasetoError::FooterInvalid);
                 }
             }
-            _ => {}
+            _ => {
+                //a token without a footer segment cannot carry a non-empty expected footer
+                let footer = footer.into().unwrap_or_default();
+                if !footer.is_empty() {
+                    return Err(PasetoError::FooterInvalid);
+                }
+            }
         }
 
         //grab the header
